@@ -46,6 +46,10 @@ type Outcome struct {
 	// runs contribute any); second-level keys "name:..." are counted per name.
 	Keys   []string `json:"keys,omitempty"`
 	Sample any      `json:"sample,omitempty"`
+	// Trouble: part of this run could not be driven on the tree under test
+	// (harness trouble, never a violation). The batch goes on; unless another
+	// run ends with a violation of its own, the batch ends with exit status 2.
+	Trouble string `json:"trouble,omitempty"`
 }
 
 func (o *Outcome) Fault(kind string) {
@@ -355,6 +359,9 @@ func workerMain(p Property, env *Env) {
 			os.WriteFile(*flagOut+".current", []byte(strconv.Itoa(index)), 0o644)
 			out := safeExecute(p, env, c.Params, ch)
 			res.Evals++
+			if out.Trouble != "" && res.Harness == "" {
+				res.Harness = out.Trouble
+			}
 			if res.FirstIndex < 0 {
 				res.FirstIndex = index
 			}
@@ -662,9 +669,16 @@ func parentMain(p Property, env *Env) int {
 			harness = u
 		}
 	}
-	if harness != "" {
+	if harness != "" && len(found) == 0 {
 		fmt.Fprintln(Err, "HARNESS-ERROR:", harness)
 		return 2
+	}
+	if harness != "" {
+		// part of the batch could not be driven, but other runs ended with a
+		// violation of their own, each with a replay file: those are reported
+		// (incompleteness cannot turn a violation into a pass); should every one
+		// of them turn out to be a listed finding, the trouble decides after all
+		fmt.Fprintln(Err, "note: part of the batch could not be driven:", harness)
 	}
 	loopWall := time.Since(start).Seconds()
 
@@ -780,6 +794,10 @@ func parentMain(p Property, env *Env) int {
 	}
 	if violations > 0 {
 		return 1
+	}
+	if harness != "" {
+		fmt.Fprintln(Err, "HARNESS-ERROR:", harness)
+		return 2
 	}
 	fmt.Fprintf(Out, "[%s] OK: property held on everything explored\n", p.ID())
 	return 0
